@@ -216,7 +216,7 @@ def check_next_mark(program: Program):
             sp.attrs.update({sm.ATTR_PENDING: p, sm.ATTR_ITER: mi, sm.ATTR_LINE: LineV("L", 0),
                              sm.ATTR_INDEX: Unknown("old-index"), sm.ATTR_TEXT: BibStr()})
             try:
-                v = it.call_function(AFunc(fi, fi.node, fi.module, self_val=sp, cls=cls), [], {"accept_eof": accept_eof})
+                v = it.call_function(AFunc(fi, fi.node, fi.module, self_val=sp, cls=cls), [], {sm.P_ACCEPT_EOF: accept_eof})
                 out = ("return", v)
             except Raised as r:
                 out = ("raise", r)
